@@ -699,7 +699,7 @@ fn main() {
         "model_checking",
         "layer 2: level-BFS over add/remove claim topic, add/remove/update trusted issuer (topic lists {1},{2},{1,2}), add/remove claim (issuer, topic), issuer answer flips, from an empty registry and from a fully satisfied one; after every accepted step verify_identity is compared with the statement's predicate computed from the registry's independent getters. layer 1: for each of 3 signature schemes, a genuine claim and every listed defect scenario (field-by-field message tampering, nonce, every k-th/every bit of data and signature, key allow/remove/topic/scheme, expiry positions, revocation) against an issuer assembled from the library helpers; message bytes are built in the harness",
         |tier: Tier, r: &mut Runner| {
-            r.world(&Ver { thorough: tier == Tier::Thorough }, &Bounds::new(tier.pick(4, 5), tier.pick(30, 400)));
+            r.world(&Ver { thorough: tier == Tier::Thorough }, &Bounds::new(tier.pick(5, 7), tier.pick(30, 400)));
             layer1(tier, r);
             if let Some(rep) = r.report() {
                 rep.require(
